@@ -16,13 +16,23 @@ def check(ctx):
             bm = re.findall(r'^bestmove (\S+)', out, re.M)
             path = report.save_replay(ctx, r.q.name, {'harness': r.q.name, 'node': ce, 'native_bestmoves_within_3s_of_stop': bm})
             return {'confirmed': True if len(bm) != 1 else None, 'strict': True, 'key': 'node-ignores-stop', 'path': path, 'text': '%s: %s | native: stop during a capture-heavy search answered within 3 s: %s' % (r.q.name, '; '.join(d for _, d in r.failed[:2]), bm)}
+        sp = ce.get('ce_stop_point', 0)
+        if 160 <= sp < 200:
+            # stop lands while the info line of an iteration is printed: this interleaving can be pinned natively through cout's stream buffer
+            ALL = ['bitbase', 'bithacks', 'endgame', 'logger', 'move_bitboards', 'move_orderer', 'movegen', 'polyglot', 'position', 'score', 'search', 'time_manager', 'types', 'uci', 'ucioption', 'zobrist_hash']
+            rexe = ctx.native_bin('stop_replay', [os.path.join(sc.VERIF, 'native', 'stop_replay.cpp')], ALL)
+            out = ctx.sh([rexe, str(sp - 160 + 1)], ok=(0, 1), timeout=120)
+            path = report.save_replay(ctx, r.q.name, {'harness': 'h_go', 'schedule': ce, 'native(stop executed inside the flush of the info line)': out.strip().split('\n')})
+            return {'confirmed': 'REPRODUCED' in out and 'NOT-REPRODUCED' not in out, 'key': 'lost-stop-between-iterations', 'path': path,
+                    'text': 'stop delivered while info line %d is printed, %s root searches completed afterwards | native: %s' % (sp - 160 + 1, ce.get('ce_completed_after_stop'), out.strip().replace('\n', ' / ')[:300])}
         lost = 0; runs = []
         for i in range(5):
             out = sc.uci_session(ctx, exe, ['position startpos', 'go infinite', 'stop'], wait=2.0)
             bm = re.findall(r'^bestmove (\S+)', out, re.M); runs.append(bm)
             if len(bm) != 1: lost += 1
         path = report.save_replay(ctx, r.q.name, {'harness': 'h_go', 'schedule': ce, 'uci_runs(position startpos/go infinite/stop)': runs})
-        return {'confirmed': lost > 0, 'key': 'lost-stop', 'path': path,
+        # a timing run cannot force the schedule the solver found: not reproducing it proves nothing, so the schedule stands (strict)
+        return {'confirmed': True if lost > 0 else None, 'strict': True, 'key': 'lost-stop', 'path': path,
                 'text': 'stop delivered at schedule point %s, %s root searches completed afterwards | native: %d of 5 back-to-back go infinite/stop sessions produced no bestmove within 2 s' % (ce.get('ce_stop_point'), ce.get('ce_completed_after_stop'), lost)}
     rc_extra = []
     rc = report.finish(ctx, res, wit, replay=replay,
